@@ -15,6 +15,10 @@ of its clauses have parts that are closed-form code and table agreement; only th
   C01.select   which half of the record is used: select_log_k_expression / add_other_logk decide "has an analytical expression"
                by examining ALL six coefficients (the loop over T_A1..T_A6 leaves only from inside the non-zero test), then copy
                slot j to slot j: the analytical half replaces logK_T0 / delta_h (zeroed) or vice versa, delta_v.. always copied
+  C01.mbform   "species molalities weighted by stoichiometry add up to the reported element totals": build_model forms the
+               solver's mole-balance sums and the species list used for summing and printing from the same formula of each
+               species: both blocks test `<species>.<vector>.size() == 0` and otherwise add THAT SAME vector (the alternate
+               -mole_balance formula), so the reported totals book a species where the solver balances it
   C01.kcall    unit discipline at every call of k_calc: the temperature argument is a Kelvin quantity (an expression that
                mentions a Celsius quantity - tc, tc_x, Get_tc() - must be that quantity + 273.15) and the pressure argument is
                an atmosphere quantity times 101325 (or the reference 101325 itself)
@@ -132,6 +136,7 @@ def run(P, R, tier):
     logk_rule(P, R)
     addlogk_rule(P, R)
     select_rule(P, R)
+    mbformula_rule(P, R)
     kcall_rule(P, R)
     slots_rule(P, R)
     si_rule(P, R)
@@ -311,6 +316,38 @@ def select_rule(P, R):
                 R.violation("C01.select", inst, "unexpected value `%s` stored into the selected record" % T.text(x[4])[:40], line=x[1], **where)
     if n < 6:
         R.anchor_missing("C01.select", "select_log_k_expression: only %d slot stores found" % n)
+
+
+def mbformula_rule(P, R):
+    R.rule("C01.mbform", "build_model: the mole-balance sums and the reporting list use the same (alternate) formula vector of a species", minimum=2)
+    f = P.one("Phreeqc::build_model")
+    where = dict(file=f["file"], function=f["q"])
+    sites = []
+    for x in T.walk(f["body"]):
+        if x[0] == "If" and T.is_node(x[4]):
+            c = T.strip_casts(x[2])
+            if c[0] == "Bin" and c[2] == "==" and T.lit_value(c[4]) == 0:
+                l = T.strip_casts(c[3])
+                if l[0] == "Call" and T.callee_name(l) == "size" and T.is_node(l[3]):
+                    v = T.strip_casts(l[3])
+                    if v[0] == "Member" and v[2].startswith("species::"):
+                        adds = [k for k in T.calls(x[4]) if T.callee_name(k) == "add_elt_list" and k[4]]
+                        if adds:
+                            a0 = T.strip_casts(adds[0][4][0])
+                            sites.append((x, v[2], a0[2] if a0[0] == "Member" else T.text(a0), adds[0]))
+    if len(sites) < 2:
+        R.anchor_missing("C01.mbform", "build_model: fewer than two `if (<formula>.size() == 0) ... else add_elt_list(<formula>)` blocks found")
+        return
+    vecs = set(t for _, t, _, _ in sites)
+    for x, tested, added, call in sites:
+        inst = "build_model@%d" % x[1]
+        if tested == added and len(vecs) == 1:
+            R.ok("C01.mbform", inst, "tests and adds %s" % tested.split("::")[-1])
+        elif tested != added:
+            R.violation("C01.mbform", inst, "the block tests %s but adds %s: species with an alternate mole-balance formula are summed under a different element than the solver "
+                        "balances them under" % (tested.split("::")[-1], added.split("::")[-1]), line=call[1], **where)
+        else:
+            R.violation("C01.mbform", inst, "the blocks of build_model use different formula vectors %s" % sorted(v.split("::")[-1] for v in vecs), line=call[1], **where)
 
 
 CELSIUS = ("tc_x", "tc", "Get_tc", "tc1", "tc2")
